@@ -70,12 +70,12 @@ class Job:
     """
     def __init__(self, name, engine, src=None, defs=(), cbmc=(), wrap='MYTH_WRAP_VANILLA', timeout=1800,
                  mem_gb=12, replace_calls=(), cfg=None, delete=(), bounds=None, func=None, note='',
-                 lang='c', extra_src=(), pyfunc=None, nowitness=False, sat=None, cxxflags=(), remove_bodies=()):
+                 lang='c', extra_src=(), pyfunc=None, nowitness=False, sat=None, cxxflags=(), remove_bodies=(), group=None):
         self.name = name; self.engine = engine; self.src = src; self.defs = list(defs); self.cbmc = list(cbmc)
         self.wrap = wrap; self.timeout = timeout; self.mem_gb = mem_gb; self.replace_calls = list(replace_calls)
         self.cfg = cfg or {}; self.delete = list(delete); self.bounds = bounds or {}; self.func = func
         self.note = note; self.lang = lang; self.extra_src = list(extra_src); self.pyfunc = pyfunc
-        self.nowitness = nowitness; self.sat = sat; self.cxxflags = list(cxxflags); self.remove_bodies = list(remove_bodies)
+        self.group = group; self.nowitness = nowitness; self.sat = sat; self.cxxflags = list(cxxflags); self.remove_bodies = list(remove_bodies)
 
 class JobResult:
     def __init__(self, job):
@@ -244,7 +244,11 @@ def run_cbmc(job, target, wd, res, extra=(), extra_props=None):
         if mm: res.vars = max(res.vars, int(mm.group(1))); res.clauses = max(res.clauses, int(mm.group(2)))
         mm = re.search(r'Runtime (?:decision procedure|Solver): ([0-9.]+)s', m)
         if mm: res.solver_s += float(mm.group(1))
-    unk = [r.get('property') for r in results if r.get('status') not in ('SUCCESS', 'FAILURE')]
+    unk_all = [r.get('property') for r in results if r.get('status') not in ('SUCCESS', 'FAILURE')]
+    unk = [p for p in unk_all if '.unwind.' not in p and '.recursion' not in p]      # unwinding assertions cannot be selected with --property
+    for p in unk_all:
+        if p not in unk: res.unwind_fail.append('%s left UNKNOWN by cbmc' % p)
+    results = [r for r in results if r.get('property') in unk or r.get('status') in ('SUCCESS', 'FAILURE')]
     if unk and not extra_props:
         # cbmc leaves properties UNKNOWN in multi-property mode once other properties have failed: decide them on their own
         sub = JobResult(job)
@@ -291,7 +295,10 @@ def run_cbmc(job, target, wd, res, extra=(), extra_props=None):
     elif res.unwind_fail:
         res.status = 'undecided'; res.detail = 'unwinding bound too small: ' + '; '.join(res.unwind_fail[:3])
     elif not job.nowitness and not extra_props and not (witness_seen and res.witness):
-        res.status = 'vacuous'; res.detail = 'WITNESS assertion %s' % ('unreachable (harness over-constrained)' if witness_seen else 'missing from the query')
+        if job.group and witness_seen:
+            res.status = 'holds'; res.extra['witness_reachable_in_this_cube'] = False    # decided at group level (vlib.decide)
+        else:
+            res.status = 'vacuous'; res.detail = 'WITNESS assertion %s' % ('unreachable (harness over-constrained)' if witness_seen else 'missing from the query')
     else:
         res.status = 'holds'
 
@@ -446,6 +453,12 @@ def decide(pid, tier, jobs, level='model_checking', assumptions=(), functions_do
         else:
             broken.append('%s: %s: %s' % (r.job.name, r.status, r.detail))
         samples.append(s)
+    groups = {}
+    for r in results:
+        if r.job.group: groups.setdefault(r.job.group, []).append(r)
+    for g, rs in groups.items():
+        if all(r.status in ('holds',) for r in rs) and not any(r.witness for r in rs):
+            broken.append('%s: vacuous: WITNESS unreachable in every cube of the case split (harness over-constrained or bound too small)' % g)
     for l in sorted(set(known_lines)): print(l)
     wall = time.time() - t0
     ev = dict(property_id=pid, tier=tier, seed=seed, level=level,
